@@ -74,8 +74,6 @@ def project_files():
 
 def refresh_makefile():
     """(Re)generate _CoqProject / Makefile when the file list changed."""
-    content = ' '.join(COQ_FLAGS[i] + ' ' + COQ_FLAGS[i + 1] + ' ' + COQ_FLAGS[i + 2]
-                       for i in range(0, len(COQ_FLAGS), 3)).replace('  ', ' ')
     lines = ['-R theories Aiuti', '-R props AiutiProps', '-R gen AiutiGen',
              '-arg -w', '-arg -all'] + project_files()
     changed = write_if_changed(os.path.join(COQ, '_CoqProject'), '\n'.join(lines) + '\n')
@@ -128,10 +126,29 @@ def strip_comments(src: str) -> str:
     return ''.join(out)
 
 
-def hygiene():
-    """grep of DESIGN §7: no Admitted/admit/Axiom/Parameter/... in the development."""
+def closure(rel_files):
+    """Transitive closure of project files over 'Require ... Aiuti(.|Props.|Gen.)X'."""
+    seen, todo = [], list(rel_files)
+    dirs = {'Aiuti': 'theories', 'AiutiProps': 'props', 'AiutiGen': 'gen'}
+    while todo:
+        f = todo.pop()
+        if f in seen or not os.path.exists(os.path.join(COQ, f)):
+            continue
+        seen.append(f)
+        src = strip_comments(open(os.path.join(COQ, f)).read())
+        for m in re.finditer(r'\b(AiutiProps|AiutiGen|Aiuti)\.([A-Za-z_][\w]*)', src):
+            todo.append(f'{dirs[m.group(1)]}/{m.group(2)}.v')
+        for m in re.finditer(r'From\s+(AiutiProps|AiutiGen|Aiuti)\s+Require\s+(?:Import|Export)?\s*([^.]*)\.', src):
+            for name in m.group(2).split():
+                todo.append(f'{dirs[m.group(1)]}/{name}.v')
+    return sorted(seen)
+
+
+def hygiene(files=None):
+    """grep of DESIGN §7: no Admitted/admit/Axiom/Parameter/... in the development
+    (restricted to the dependency closure of ``files`` when given)."""
     bad = []
-    for f in project_files():
+    for f in (closure(files) if files is not None else project_files()):
         src = strip_comments(open(os.path.join(COQ, f)).read())
         for m in FORBIDDEN.finditer(src):
             bad.append((f, m.group(0)))
